@@ -167,6 +167,15 @@ func (c *Conn) isClosed() bool {
 	return c.closed
 }
 
+// transferPipe returns the pipe feeding the current BDAT transfer, if any.
+// Like the session it is also accessed by Close, which may run on another
+// goroutine (Server.Close), hence the lock.
+func (c *Conn) transferPipe() *io.PipeWriter {
+	c.locker.Lock()
+	defer c.locker.Unlock()
+	return c.bdatPipe
+}
+
 func (c *Conn) setSession(session Session) {
 	c.locker.Lock()
 	defer c.locker.Unlock()
@@ -239,7 +248,7 @@ func (c *Conn) handleGreet(enhanced bool, arg string) {
 	c.helo = domain
 
 	// RFC 5321: "An EHLO command MAY be issued by a client later in the session"
-	if c.session != nil {
+	if c.Session() != nil {
 		// RFC 5321: "... the SMTP server MUST clear all buffers
 		// and reset the state exactly as if a RSET command has been issued."
 		c.reset()
@@ -315,7 +324,7 @@ func (c *Conn) handleMail(arg string) {
 		c.writeResponse(502, EnhancedCode{5, 5, 1}, "Please introduce yourself first.")
 		return
 	}
-	if c.bdatPipe != nil {
+	if c.transferPipe() != nil {
 		c.writeResponse(502, EnhancedCode{5, 5, 1}, "MAIL not allowed during message transfer")
 		return
 	}
@@ -673,7 +682,7 @@ func (c *Conn) handleRcpt(arg string) {
 		c.writeResponse(502, EnhancedCode{5, 5, 1}, "Missing MAIL FROM command.")
 		return
 	}
-	if c.bdatPipe != nil {
+	if c.transferPipe() != nil {
 		c.writeResponse(502, EnhancedCode{5, 5, 1}, "RCPT not allowed during message transfer")
 		return
 	}
@@ -904,7 +913,9 @@ func (c *Conn) handleStartTLS() {
 		return
 	}
 
+	c.locker.Lock()
 	c.conn = tlsConn
+	c.locker.Unlock()
 	c.init()
 
 	// Reset all state and close the previous Session.
@@ -926,7 +937,7 @@ func (c *Conn) handleData(arg string) {
 		c.writeResponse(501, EnhancedCode{5, 5, 4}, "DATA command should not have any arguments")
 		return
 	}
-	if c.bdatPipe != nil {
+	if c.transferPipe() != nil {
 		c.writeResponse(502, EnhancedCode{5, 5, 1}, "DATA not allowed during message transfer")
 		return
 	}
@@ -1017,9 +1028,13 @@ func (c *Conn) handleBdat(arg string) {
 		c.bdatStatus = c.createStatusCollector()
 	}
 
-	if c.bdatPipe == nil {
+	pipe := c.transferPipe()
+	if pipe == nil {
 		var r *io.PipeReader
-		r, c.bdatPipe = io.Pipe()
+		r, pipe = io.Pipe()
+		c.locker.Lock()
+		c.bdatPipe = pipe
+		c.locker.Unlock()
 
 		// The delivery goroutine may outlive this transaction (RSET, a new
 		// MAIL, the end of the connection...), so it must not use the Conn
@@ -1063,7 +1078,7 @@ func (c *Conn) handleBdat(arg string) {
 	c.lineLimitReader.LineLimit = 0
 
 	chunk := io.LimitReader(c.text.R, int64(size))
-	n, err := io.Copy(c.bdatPipe, chunk)
+	n, err := io.Copy(pipe, chunk)
 	if err == nil && n < int64(size) {
 		// The connection ended in the middle of the chunk.
 		err = io.ErrUnexpectedEOF
@@ -1089,7 +1104,7 @@ func (c *Conn) handleBdat(arg string) {
 	if last {
 		c.lineLimitReader.LineLimit = c.server.MaxLineLength
 
-		c.bdatPipe.Close()
+		pipe.Close()
 
 		err := <-c.dataResult
 
